@@ -14,12 +14,14 @@ def run(cmd, cwd, env):
 
 rows = []
 for prop in sorted(os.listdir(INC)):
-    for k in (1, 2):
+    for k in (1, 2, 3):
         d = os.path.join(INC, prop)
         diff, demo, meta = (os.path.join(d, f"m{k}{s}") for s in (".diff", "_demo.py", "_meta.json"))
         if not os.path.exists(diff):
             continue
         sid = f"{prop}-m{k}"
+        if len(sys.argv) > 1 and not any(a in sid for a in sys.argv[1:]):
+            continue
         scratch = tempfile.mkdtemp(prefix="seed_")
         try:
             subprocess.run(["git", "-C", "/repo", "worktree", "add", "-q", "--detach", scratch + "/wt", "HEAD"], check=True)
